@@ -183,6 +183,11 @@ Proof.
   exact (conj (terminate_search_fires ck z i t W) (conj (test_spec ck z i t W) (test_to_search ck z i t W))).
 Qed.
 
+(* -- the hypothesis wf (no zero frequency) holds for every model TerminationModelBuilder::build produces from a
+      configuration file (as of /repo dcfc7c1 a non-positive frequency is rejected there) -- *)
+Theorem c10_configured_models_wf : forall fuel j t, build fuel j = Ok t -> wf t = true.
+Proof. exact build_wf. Qed.
+
 (* -- drivers (k-shortest paths): a driver = any program that calls the search and propagates every error.  If each
       limited sub-search is the unlimited sub-search or the explicit error (c10_limited_cases), so is the driver;
       if each limited sub-search that returns returns the unlimited result (c10_limited_prefix_of_unlimited), so
@@ -323,5 +328,6 @@ Print Assumptions c10_success_monotone_runtime.
 Print Assumptions c10_stricter_order.
 Print Assumptions c10_combined_any.
 Print Assumptions c10_test_spec.
+Print Assumptions c10_configured_models_wf.
 Print Assumptions c10_ksp_subsearches.
 Print Assumptions c10_runner_is_model.
